@@ -790,7 +790,7 @@ def run(rep):
     # translator: the pure arithmetic/bit-level functions are regenerated from the Rust source on every run and must
     # still equal the hand model (Properties/*Gen.v)
     import rust2coq
-    translator, gen_files = rust2coq.step(["mux_header"], ["theories/Properties/C14Gen.v"], broken)
+    translator, gen_files = rust2coq.step(["mux_header", "pins_mux"], ["theories/Properties/C14Gen.v"], broken)
     po = common.proof_obligations(PROP_FILES + gen_files)
     if not po["ok"]:
         broken.append("Coq obligations of Properties/C14.v: " + (po["log_tail"] or str(po["hygiene_problems"] or po["bad_axioms"])))
